@@ -531,7 +531,7 @@ let run_osrm () =
   let x = match fault with
     | "refuse" | "drop" | "truncate" -> XThrow
     | "status500" -> XStatus (false, None)
-    | "empty" | "nonjson" -> XStatus (true, None)
+    | "empty" | "nonjson" | "streamcut_str" | "streamcut_key" -> XStatus (true, None)
     | "nodurations" -> XStatus (true, Some (JObj [ (S (S O), JStr) ]))
     | "nulls" -> table (List.map (fun _ -> JNull) durs) (List.map (fun _ -> JNull) dists)
     | "fewer" -> let k = 1 + n / 2 in table (take k durs) (take k dists)
